@@ -45,12 +45,17 @@ Fixpoint lookB (t : tblB) (x : bytes) : option (option bytes) :=
 Definition bech_of (t : tblB) : bytes -> option bytes := fun x => match lookB t x with Some y => y | None => None end.
 
 (* ---------------- bit flips (the harness locates the regions; the flip itself is done here) *)
-Fixpoint flip (bs : bytes) (off : nat) (bit : N) : bytes :=
+Fixpoint flip_nat (bs : bytes) (off : nat) (bit : N) : bytes :=
   match bs, off with
   | [], _ => []
   | b :: r, O => n2b (N.lxor (b2n b) (N.shiftl 1 bit)) :: r
-  | b :: r, S o => b :: flip r o bit
+  | b :: r, S o => b :: flip_nat r o bit
   end.
+Definition flip (bs : bytes) (off bit : N) : bytes := flip_nat bs (N.to_nat off) bit.
+
+(* base[0..off) ++ mid ++ base[off+n..) : long inputs written relative to a base definition *)
+Definition splice (base : bytes) (off n : N) (mid : bytes) : bytes :=
+  firstn (N.to_nat off) base ++ mid ++ skipn (N.to_nat (off + n)) base.
 
 (* ---------------- implementation outcomes *)
 Inductive iout :=
@@ -150,6 +155,12 @@ Definition c19_oracle (c : vcase) : bool :=
   | VTamper => negb (is_success (vc_out c))
   | VNeutral => true
   end.
+
+(* (model differs from implementation, property fails on the implementation's output, table miss),
+   the model being evaluated once per case *)
+Definition c19_flags (c : vcase) : bool * bool * bool :=
+  let t := tables_ok c in
+  (negb (t && out_match (model_out c) (vc_out c)), negb (c19_oracle c), negb t).
 
 (* ---------------- sign cases *)
 Record scase := mkS { sc_key : skey; sc_net : network; sc_attach : bool; sc_msg : bytes;
